@@ -1091,3 +1091,104 @@ def add_feature_tests(rng, prog):
                     if last:
                         break
     return prog
+
+
+# ---------------------------------------------------------------------------
+# family 'pos' (C01): positioning passes - shift, advance, kern, with values read from slot attributes and metrics
+# ---------------------------------------------------------------------------
+
+def gen_pos_value(rng, ctx, depth):
+    """Integer expression for a positioning attribute: the int grammar plus reads of advance.x / shift.x / shift.y of the
+    own or another slot and of the advancewidth metric."""
+    r = rng.random()
+    if depth <= 0 or r < 0.45:
+        k = rng.random()
+        if k < 0.45:
+            n = rng.choice([0, 1, 5, 10, 25, 100, 127, 128, 300, -1, -7, -50, -128, -129, -300])
+            return (str(n) if n >= 0 else "(%d)" % n), {"k": "lit", "v": n}
+        slot = None
+        if ctx["refs"] and rng.random() < 0.4:
+            slot = rng.choice(ctx["refs"])
+        pre = "@%d." % slot if slot else ""
+        if k < 0.6:
+            i = rng.randrange(ctx["nuser"])
+            return pre + "user%d" % (i + 1), {"k": "user", "slot": slot, "i": i}
+        if k < 0.72 and ctx["ngattr"]:
+            a = rng.randrange(ctx["ngattr"])
+            return pre + "ga%d" % a, {"k": "gattr", "slot": slot, "a": a}
+        if k < 0.86:
+            nm = rng.choice(["advance.x", "shift.x", "shift.y"])
+            return pre + nm, {"k": "slot", "slot": slot, "name": nm}
+        return pre + "advancewidth", {"k": "metric", "slot": slot, "name": "advancewidth"}
+    op = rng.choice(["+", "-", "+", "-", "*", "/", "min", "max"])
+    ta, ia = gen_pos_value(rng, ctx, depth - 1)
+    tb, ib = gen_pos_value(rng, ctx, depth - 1)
+    if op == "*":
+        tb, ib = str(rng.choice([2, 3, -2])), None
+        ib = {"k": "lit", "v": int(tb)}
+    if op == "/":
+        d = rng.choice([2, 3, 4, -2])
+        tb, ib = (str(d) if d > 0 else "(%d)" % d), {"k": "lit", "v": d}
+    if op in ("min", "max"):
+        return "%s(%s, %s)" % (op, ta, tb), {"k": "bin", "op": op, "a": ia, "b": ib}
+    return "(%s %s %s)" % (ta, op, tb), {"k": "bin", "op": op, "a": ia, "b": ib}
+
+
+def gen_pos_program(rng):
+    prog = Prog()
+    prog.nglyphs = rng.choice([16, 24])
+    prog.font, glyphs, prog.cmap = ttf.simple_font(prog.nglyphs)
+    prog.advances = [g.get("adv", 0) for g in glyphs]
+    gen_classes(rng, prog, rng.randint(3, 5), 3, prog.nglyphs, maxsize=5)
+    names = prog.class_order
+    ngattr = rng.randint(1, 2)
+    gvals = {g: [rng.choice([0, 1, 7, 40, 250, -4]) for _ in range(ngattr)] for g in range(3, prog.nglyphs)}
+    by = {}
+    for g, v in gvals.items():
+        by.setdefault(tuple(v), []).append(g)
+    stm = ["gv%d = %s {%s};" % (vi, glyph_list_text(gl), "; ".join("ga%d = %d" % (a, x) for a, x in enumerate(v))) for vi, (v, gl) in enumerate(sorted(by.items()))]
+    stm.append("gvMark = glyphid(2) {%s};" % "; ".join("ga%d = %d" % (a, 1000 + a) for a in range(ngattr)))
+    prog.glyph_stmts = stm
+    prog.gattr = {"marker": 2, "markerBase": 1000, "numAttrs": ngattr, "spaceGlyphs": [], "assigns": []}
+    prog.gattr_values = gvals
+    # a substitution pass that gives some slots user attribute values (and changes some glyphs)
+    sub = []
+    for _ in range(rng.randint(1, 3)):
+        cls = rng.choice(names)
+        n = len(prog.classes[cls])
+        cands = [x for x in names if len(prog.classes[x]) in (1, n) and _nodup(prog.classes[x])]
+        out = ("cls", rng.choice(cands), None) if cands and _nodup(prog.classes[cls]) and rng.random() < 0.5 else None
+        it = Item(cls=cls, mod=True, out=out)
+        for u in rng.sample(range(4), rng.randint(1, 2)):
+            v = rng.choice([1, 3, 20, 100, -5, -60])
+            it.attrs.append(("user%d" % (u + 1), "=", (str(v) if v >= 0 else "(%d)" % v), {"k": "lit", "v": v}))
+        sub.append(Rule([it]))
+    prog.tables.append(("sub", [sub]))
+    passes = []
+    for _p in range(rng.randint(1, 2)):
+        rules = []
+        for _r in range(rng.randint(1, 4)):
+            npre = rng.choice([0, 0, 1, 2])
+            nmod = rng.choice([1, 1, 2, 3])
+            npost = rng.choice([0, 0, 1])
+            items = [Item(cls=rng.choice(names)) for _ in range(npre)]
+            items += [Item(cls=rng.choice(names), mod=True, out=None) for _ in range(nmod)]
+            items += [Item(cls=rng.choice(names)) for _ in range(npost)]
+            n = len(items)
+            for j, it in enumerate(items):
+                if not it.mod:
+                    continue
+                ctx = {"refs": [q for q in range(1, n + 1) if q != j + 1], "nuser": 4, "ngattr": ngattr}
+                used = set()
+                for _a in range(rng.choice([1, 1, 2, 3])):
+                    nm = rng.choice(["shift.x", "shift.y", "advance.x", "kern.x", "user1", "user3"])
+                    if nm in used or ("kern.x" in used and nm in ("shift.x", "advance.x")) or (nm == "kern.x" and ("shift.x" in used or "advance.x" in used)):
+                        continue
+                    used.add(nm)
+                    t, ir_ = gen_pos_value(rng, ctx, rng.choice([0, 1, 1, 2]))
+                    op = "=" if nm == "kern.x" or rng.random() < 0.7 else rng.choice(["+=", "-="])
+                    it.attrs.append((nm, op, t, ir_))
+            rules.append(Rule(items))
+        passes.append(rules)
+    prog.tables.append(("pos", passes))
+    return prog
